@@ -179,7 +179,8 @@ pub fn materialise(root: &Path, ents: &[Ent]) -> io::Result<()> {
         let c = cstr(&pbytes(&abs));
         let is_link = matches!(e.kind, Kind::Link(_));
         for (k, v) in &e.xattrs {
-            let kc = cstr(k.as_bytes());
+            // names are kept in util::esc form so that non-UTF-8 names round-trip through JSON
+            let kc = cstr(&unesc(k));
             let r = unsafe {
                 libc::lsetxattr(c.as_ptr(), kc.as_ptr(), v.as_ptr() as *const libc::c_void, v.len(), 0)
             };
@@ -346,7 +347,7 @@ pub fn list_xattrs(path: &Path) -> BTreeMap<String, Vec<u8>> {
         };
         if m >= 0 {
             val.truncate(m as usize);
-            out.insert(String::from_utf8_lossy(name).to_string(), val);
+            out.insert(esc(name), val);
         }
     }
     out
